@@ -214,7 +214,7 @@ def gen_deb(rng):
             out += sep + rng.choice([_num(rng, lead0=0.15), _word(rng, "abpz"), "~", "~~", "+b1", "a1", "rc1", "~rc1", "ubuntu1", "dfsg", "0", "00", "A", "Z", "z"])
         return out
     has_rev = rng.random() < 0.5
-    s += upstream(allow_hyphen=has_rev and rng.random() < 0.3)
+    s += upstream(allow_hyphen=has_rev and rng.random() < 0.5)
     if has_rev:
         s += "-" + rng.choice([_num(rng), "0", "0", "00", "", "1", "1ubuntu1", "0ubuntu0.16.04.1~", "1~bpo8+1", "01", "1.1", "a", "0-0", "~", "+"])
     return s
